@@ -233,16 +233,17 @@ Definition t_form_old (has_plural : bool) (c : countval) : form :=
   | _, _ => Singular
   end.
 
-(* the tag: resolve_count (to_int, ValueError -> 1; nil raises TypeError) *)
+(* the tag: resolve_count (to_int; ValueError and -- since the C02 repair -- TypeError -> 1, so nil counts as 1) *)
 Definition tag_count (c : countval) : res Z :=
   match c with
-  | CAbsent | CStrBad => Ok 1%Z
-  | CNil => Err ETypeError
+  | CAbsent | CStrBad | CNil => Ok 1%Z
   | CBool b => Ok (if b then 1 else 0)%Z
   | CInt z | CStrInt z => Ok z
   end.
 Definition tag_form (has_plural : bool) (c : countval) : res form :=
   do n <- tag_count c; Ok (if has_plural then null_ngettext n else Singular).
+(* before the C02 repair a nil count let the TypeError of to_int(None) escape *)
+Definition tag_count_nil_old (c : countval) : res Z := match c with CNil => Err ETypeError | _ => tag_count c end.
 (* before the fix: `if self.plural_block and count:` *)
 Definition tag_form_old (has_plural : bool) (c : countval) : res form :=
   do n <- tag_count c; Ok (if (has_plural && negb (n =? 0)%Z)%bool then null_ngettext n else Singular).
